@@ -310,6 +310,40 @@ def recovery_started_parent_before_children(run: Any) -> str | None:
     return None
 
 
+def sweep_overlapped_planning(run: Any) -> str | None:
+    """Mechanism classifier (interleaved sweep x handler runs only): the recovery sweep thread
+    pushed StartTask for a stage that a StartStage handler claimed WHILE the sweep was running
+    (claim commit after the start of the race, before the sweep's push).  The sweep's multi-statement
+    read of the workflow overlapped the handler's claim / before-stage / plan commits, saw a RUNNING
+    stage with unstarted tasks and no before-stage, and took it for a crashed one."""
+    race = getattr(run, "race_start_seq", None)
+    if race is None:
+        return None
+    groups = Groups(run.commits)
+    claims: dict[str, tuple[int, Any]] = {}
+    for a in run.audit:
+        if a["seq"] <= race:
+            continue
+        tag = groups.tag(groups.of(a["seq"]))
+        if a["kind"] == "status" and a["op"] == "stage" and a["c"] == "NOT_STARTED" and a["d"] == "RUNNING" and tag and tag[0] == "StartStage":
+            claims[a["a"]] = (a["seq"], tag)
+    id2ref = {v["id"]: k for k, v in run.state.get("stages", {}).items()}
+    for a in run.audit:
+        if a["seq"] > race and a["kind"] == "queue" and a["op"] == "ins" and a["c"] == "StartTask":
+            g = groups.of(a["seq"])
+            tag = groups.tag(g)
+            if not tag or tag[0] != "Recovery" or groups.thread(g) in (None, "MainThread"):
+                continue
+            try:
+                sid = json.loads(a["d"]).get("stage_id")
+            except Exception:
+                continue
+            c = claims.get(sid)
+            if c and c[0] < a["seq"]:
+                return f"sweep thread pushed StartTask for {id2ref.get(sid, sid)} at seq {a['seq']}; StartStage row {c[1][1]} claimed that stage at seq {c[0]}, while the sweep was already running (race began at seq {race})"
+    return None
+
+
 def lost_plan_witness(run: Any) -> str | None:
     """Mechanism classifier: a StartStage handler claimed a stage (NOT_STARTED->RUNNING
     committed) but its plan commit never happened although the message was marked
